@@ -8,7 +8,10 @@ whose links is in place: under the id of the authorised key (as `in-toto-record`
 names it) or under the id of one of that key's subkeys (as `in-toto-run` names it
 when a gpg signing subkey made the signature), validly signed and naming the step;
 authorised functionaries who did not take part left no file; where more than one
-link is asked for, they all report what the first reports.
+link is asked for, they all report what the first reports. A functionary's evidence
+may also be a layout of its own (a delegated step): then that layout, verified on its
+own with that functionary's key in its own directory, is itself carried out honestly
+- at any depth - and the link it stands for is its summary link.
 -/
 namespace InToto
 
@@ -19,7 +22,10 @@ structure FuncRecord where
   fileId : Str
   keyJ : JVal
   md : Metadata
+  /-- the link recorded, or - for a delegated step - the summary link of the sublayout -/
   lk : Link
+  /-- inspection commands executed while verifying the sublayout (none for a plain link) -/
+  tr : List (List Str)
 
 /-- What the honest performance of one step left behind: the records of the
 functionaries who took part, in the order in which the step lists them. -/
@@ -33,6 +39,8 @@ def StepRecord.chain (r : StepRecord) : Dict Str Link := r.parts.map (fun f => (
 def loadedOf (rs : List StepRecord) : Dict Str (Dict Str Metadata) := rs.map (fun r => (r.name, r.loaded))
 def chainOf (rs : List StepRecord) : Dict Str (Dict Str Link) := rs.map (fun r => (r.name, r.chain))
 /-- The link used for a step: the first functionary's. -/
+def StepRecord.trace (r : StepRecord) : List (List Str) := r.parts.flatMap (·.tr)
+def tracesOf (rs : List StepRecord) : List (List Str) := rs.flatMap (·.trace)
 def firstLinks (rs : List StepRecord) : List (Str × Link) :=
   rs.filterMap (fun r => match r.parts with | [] => none | f :: _ => some (r.name, f.lk))
 def linksOf (rs : List StepRecord) : Dict Str Link := firstLinks rs
@@ -42,9 +50,14 @@ def segOf (l : Layout) (a : Str) : List Str := a :: subkeyIds (Dict.get? l.keys 
 
 def present (w : World) (dir name cid : Str) : Bool := (loadFile w (pathJoin dir (linkFileName name cid))).isSome
 
+/-- The key a sublayout filed under `keyid` is verified with (`layout.keys[keyid]`). -/
+def subKeyOf (l : Layout) (keyid : Str) : JVal := (Dict.get? l.keys keyid).getD .null
+
 /-- The record of one authorised functionary: `some none` = took no part (no file under
-any of the ids), `some (some f)` = took part honestly, `none` = neither. -/
-def honestFunc (w : World) (l : Layout) (dir name a : Str) : Option (Option FuncRecord) :=
+any of the ids), `some (some f)` = took part honestly, `none` = neither. `sub` decides
+a delegated layout (the procedure itself, one level down). -/
+def honestFunc (sub : Metadata → List (Str × JVal) → Str → Str → Option VerifyOut)
+    (w : World) (l : Layout) (dir name a : Str) : Option (Option FuncRecord) :=
   match (segOf l a).filter (present w dir name) with
   | [] => some none
   | fid :: more =>
@@ -57,8 +70,17 @@ def honestFunc (w : World) (l : Layout) (dir name a : Str) : Option (Option Func
             if md.verifySignature w.S w.nowSec keyJ = .ok then
               match md.getPayload with
               | .ok (.link lk) =>
-                if lk.name = some name then some (some { kid := a, fileId := fid, keyJ := keyJ, md := md, lk := lk })
+                if lk.name = some name then
+                  some (some { kid := a, fileId := fid, keyJ := keyJ, md := md, lk := lk, tr := [] })
                 else none
+              | .ok (.layout _) =>
+                match sub md [(fid, subKeyOf l fid)] (pathJoin dir (sublayoutDirName name fid)) name with
+                | some out =>
+                  match out.result with
+                  | .ok summary =>
+                    some (some { kid := a, fileId := fid, keyJ := keyJ, md := md, lk := summary, tr := out.trace })
+                  | .error _ => none
+                | none => none
               | _ => none
             else none
           | _ => none
@@ -66,20 +88,22 @@ def honestFunc (w : World) (l : Layout) (dir name a : Str) : Option (Option Func
       | none => none
     else none
 
-def honestFuncs (w : World) (l : Layout) (dir name : Str) : List Str → Option (List FuncRecord)
+def honestFuncs (sub : Metadata → List (Str × JVal) → Str → Str → Option VerifyOut)
+    (w : World) (l : Layout) (dir name : Str) : List Str → Option (List FuncRecord)
   | [] => some []
   | a :: rest =>
-    match honestFunc w l dir name a, honestFuncs w l dir name rest with
+    match honestFunc sub w l dir name a, honestFuncs sub w l dir name rest with
     | some none, some fs => some fs
     | some (some f), some fs => some (f :: fs)
     | _, _ => none
 
 /-- The record of an honestly performed step, if the step was performed that way. -/
-def honestRecord (w : World) (l : Layout) (dir : Str) (step : Step) : Option StepRecord :=
+def honestRecord (sub : Metadata → List (Str × JVal) → Str → Str → Option VerifyOut)
+    (w : World) (l : Layout) (dir : Str) (step : Step) : Option StepRecord :=
   match step.name with
   | some name =>
     if (candidateIds l step).Nodup then
-      match honestFuncs w l dir name step.pubkeys with
+      match honestFuncs sub w l dir name step.pubkeys with
       | some (f :: fs) =>
         if step.threshold ≤ ((f :: fs).length : Int) ∧
             (step.threshold ≤ 1 ∨ allAgree ((f :: fs).map (fun g => (g.fileId, g.lk))) = true) then
@@ -89,21 +113,22 @@ def honestRecord (w : World) (l : Layout) (dir : Str) (step : Step) : Option Ste
     else none
   | none => none
 
-def honestRecords (w : World) (l : Layout) (dir : Str) : List Step → Option (List StepRecord)
+def honestRecords (sub : Metadata → List (Str × JVal) → Str → Str → Option VerifyOut)
+    (w : World) (l : Layout) (dir : Str) : List Step → Option (List StepRecord)
   | [] => some []
   | step :: rest =>
-    match honestRecord w l dir step, honestRecords w l dir rest with
+    match honestRecord sub w l dir step, honestRecords sub w l dir rest with
     | some r, some rs => some (r :: rs)
     | _, _ => none
 
-/-- Evaluates every hypothesis of `honest_chain_verifies`; `some out` = they all
-hold and `out` is what the theorem says verification returns. -/
-def honestCheck (gm : Str → Str → Bool) (w : World) (md : Metadata) (keys : List (Str × JVal)) (dir : Str)
+/-- One level of the decision procedure, given the procedure for delegated layouts. -/
+def honestCheckWith (sub : Metadata → List (Str × JVal) → Str → Str → Option VerifyOut)
+    (gm : Str → Str → Bool) (w : World) (md : Metadata) (keys : List (Str × JVal)) (dir : Str)
     (params : Option (List (Str × Option Str))) (stepName : Str) : Option VerifyOut :=
   match gate w md keys params with
   | .error _ => none
   | .ok layout =>
-    match honestRecords w layout dir layout.steps with
+    match honestRecords sub w layout dir layout.steps with
     | none => none
     | some rs =>
       if (rs.map (·.name)).Nodup then
@@ -114,10 +139,20 @@ def honestCheck (gm : Str → Str → Bool) (w : World) (md : Metadata) (keys : 
             match runAllInspections w layout.inspect [] with
             | (.ok inspLinks, tr) =>
               if checkInspections gm layout (linksOf rs) inspLinks = .ok () then
-                some { result := getSummaryLink layout (linksOf rs) stepName, trace := tr }
+                some { result := getSummaryLink layout (linksOf rs) stepName, trace := tracesOf rs ++ tr }
               else none
             | _ => none
           else none
       else none
+
+/-- Evaluates every hypothesis of `honest_tree_verifies`, to a nesting depth of `fuel`
+layouts; `some out` = they all hold and `out` is what the theorem says verification
+returns (`honestCheck_sound`). -/
+def honestCheck (gm : Str → Str → Bool) (w : World) : Nat → Metadata → List (Str × JVal) → Str →
+    Option (List (Str × Option Str)) → Str → Option VerifyOut
+  | 0, _, _, _, _, _ => none
+  | fuel + 1, md, keys, dir, params, stepName =>
+    honestCheckWith (fun md' keys' dir' name' => honestCheck gm w fuel md' keys' dir' none name')
+      gm w md keys dir params stepName
 
 end InToto
